@@ -4,6 +4,8 @@ import os, sys, json, time, subprocess, tempfile, shutil, atexit, glob, fcntl, h
 VERIF = os.path.dirname(os.path.dirname(os.path.abspath(__file__)))
 REPO = os.environ.get("VERIF_REPO", "/repo")
 GUARD = "LIBBIDIB_VERIF"
+CURRENT_PID = ""
+CURRENT_EXTS = ()   # a check may set vlib.CURRENT_EXTS = ("C07",) to name extension files it needs besides its own
 NCPU = 16
 
 _tmpdirs = []
@@ -210,15 +212,17 @@ def pkg_cflags():
 def build_harness(san="asan", extra_defs=(), wrap=()):
     """compile /repo/src/*/*.c + harness/drv.c into a temp dir; returns path of the driver"""
     d = mktmp("vhar")
-    exts = sorted(glob.glob(os.path.join(VERIF, "harness", "ext_*.inc")))
-    with open(os.path.join(d, "ext_all.inc"), "w") as f:
-        for e in exts:
-            f.write('#include "%s"\n' % e)
-        f.write("static int ext_command(char *cmd, char **a, int na, uint8_t *bytes, size_t nbytes) {\n")
-        for e in exts:
-            tag = os.path.basename(e)[4:-4]
-            f.write("\tif (ext_cmd_%s(cmd, a, na, bytes, nbytes)) return 1;\n" % tag)
-        f.write("\t(void)cmd; (void)a; (void)na; (void)bytes; (void)nbytes; return 0;\n}\n")
+    allexts = sorted(glob.glob(os.path.join(VERIF, "harness", "ext_*.inc")))
+    def write_ext(exts):
+        with open(os.path.join(d, "ext_all.inc"), "w") as f:
+            for e in exts:
+                f.write('#include "%s"\n' % e)
+            f.write("static int ext_command(char *cmd, char **a, int na, uint8_t *bytes, size_t nbytes) {\n")
+            for e in exts:
+                tag = os.path.basename(e)[4:-4]
+                f.write("\tif (ext_cmd_%s(cmd, a, na, bytes, nbytes)) return 1;\n" % tag)
+            f.write("\t(void)cmd; (void)a; (void)na; (void)bytes; (void)nbytes; return 0;\n}\n")
+    write_ext(allexts)
     srcs = sorted(glob.glob(os.path.join(REPO, "src/*/*.c")))
     if not srcs:
         raise BuildBroken("no sources under %s/src" % REPO)
@@ -239,6 +243,16 @@ def build_harness(san="asan", extra_defs=(), wrap=()):
                   "-c", os.path.join(VERIF, "harness", "drv.c"), "-o", drv], stdout=subprocess.PIPE, stderr=subprocess.STDOUT, text=True)))
     for s, p in procs:
         out, _ = p.communicate()
+        if p.returncode != 0 and s == "drv.c":
+            # an extension file of another property (possibly under construction) must not break this
+            # property's harness: retry with the shared extension and this property's own only
+            mine = [e for e in allexts if os.path.basename(e)[4:-4] in ("race", CURRENT_PID) or os.path.basename(e)[4:-4] in CURRENT_EXTS]
+            write_ext(mine)
+            r2 = run(["clang"] + flags + ["-I", os.path.join(REPO, "include"), "-I", os.path.join(REPO, "src"), "-iquote", d, "-iquote", os.path.join(VERIF, "harness"),
+                      "-c", os.path.join(VERIF, "harness", "drv.c"), "-o", drv], timeout=300)
+            if r2.returncode != 0:
+                raise BuildBroken("compile failed: drv.c\n%s" % ((r2.stdout + r2.stderr)[:3000]))
+            continue
         if p.returncode != 0:
             raise BuildBroken("compile failed: %s\n%s" % (s, out[:3000]))
     exe = os.path.join(d, "drv")
